@@ -36,9 +36,18 @@ def sysroot():
 
 def tree_key(repo=REPO):
     h = hashlib.sha1()
-    out = subprocess.check_output(
-        ['git', '-C', repo, 'ls-files', '-c', '-o', '--exclude-standard', '-z'])
-    files = sorted(set(f for f in out.decode().split('\0')
+    if os.path.isdir(os.path.join(repo, '.git')) or os.path.isfile(os.path.join(repo, '.git')):
+        out = subprocess.check_output(
+            ['git', '-C', repo, 'ls-files', '-c', '-o', '--exclude-standard', '-z'])
+        names = out.decode().split('\0')
+    else:
+        # a plain copy of the tree (seeded-fault regression): walk it
+        names = []
+        for root, dirs, fs in os.walk(repo):
+            dirs[:] = [d for d in dirs if d not in ('target', '.git')]
+            for fn in fs:
+                names.append(os.path.relpath(os.path.join(root, fn), repo))
+    files = sorted(set(f for f in names
                        if f.endswith(('.rs', '.toml', '.lock', '.proto')) and not f.startswith('target/')))
     for f in files:
         p = os.path.join(repo, f)
